@@ -126,18 +126,24 @@ def oracle_c10(cases, impl, ctx):
     for gid, m in groups(cases, impl).items():
         if not all(k in m for k in ("A", "B", "AB")):
             continue
-        n += 1
-        (ca, a), (cb, b), (cab, ab) = m["A"], m["B"], m["AB"]
-        if a[0] == "0" and b[0] == "0":
-            ok = ab[0] == "0" and ab[1] == a[1] + b[1]
-        elif a[0] == "0":
-            ok = ab[0] == b[0] and ab[1].startswith(a[1])
-        else:
-            ma = model.get(ca.id)
-            pre = ma[1] if (ma and ma[0] == "1") else b""
-            ok = ab[0] == a[0] and ab[1].startswith(pre)
-        if not ok:
-            bad.append(fail_payload("output for A followed by B is not the output for A followed by the output for B", m))
+        (ca, a), (cb, b) = m["A"], m["B"]
+        for role in ("AB", "AB_seg"):
+            if role not in m:
+                continue
+            n += 1
+            cab, ab = m[role]
+            if a[0] == "0" and b[0] == "0":
+                ok = ab[0] == "0" and ab[1] == a[1] + b[1]
+            elif a[0] == "0":
+                ok = ab[0] == b[0] and ab[1].startswith(a[1])
+            else:
+                ma = model.get(ca.id)
+                pre = ma[1] if (ma and ma[0] == "1") else b""
+                ok = ab[0] == a[0] and ab[1].startswith(pre)
+            if not ok:
+                bad.append(fail_payload("output for A followed by B%s is not the output for A followed by the output for B"
+                                        % (" (arriving in pieces)" if role == "AB_seg" else ""),
+                                        {k: v for k, v in m.items() if k in ("A", "B", role)}))
     return n, bad
 
 
@@ -211,7 +217,8 @@ PROPS["C13"] = dict(
 )
 
 PROPS["C15"] = dict(
-    gen=lambda rng, n, tier: F.c15(rng, (2 * n) // 3) + F.c15_varied(rng, n // 3),
+    gen=lambda rng, n, tier: [c for c in F.field_lattice(rng) + F.field_lattice(rng, "c") + F.field_lattice(rng, "l") if b"-m" in c.argv]
+                             + F.c15(rng, (2 * n) // 3) + F.c15_varied(rng, n // 3),
     budget=(9000, 60000),
     absolute=True,
     in_domain=always,
@@ -253,7 +260,7 @@ KF_CLASSES = {"lines_blank_input": kf_lines_blank_input, "lines_invalid_utf8": k
 
 
 PROPS["C01"] = dict(
-    gen=lambda rng, n, tier: F.field_lattice(rng) + F.fields(rng, n) + F.small_scope(rng, maxlen=(4 if tier == "quick" else 6), sample=(20 if tier == "quick" else None)),
+    gen=lambda rng, n, tier: (lambda cs: cs + F.with_default_bounds(rng, cs))(F.field_lattice(rng) + F.fields(rng, n) + F.small_scope(rng, maxlen=(4 if tier == "quick" else 6), sample=(20 if tier == "quick" else None))),
     budget=(15000, 100000),
     absolute=True,
     in_domain=always,
@@ -455,7 +462,7 @@ reg("C07", gen=lambda rng, n, tier: F.field_lattice(rng, "c") + F.c07(rng, n), b
     theorems=[], assumptions=["regex's \\b|\\B yields an empty match at every scalar boundary of a valid UTF-8 haystack "
                               "(assumed; exercised by this run)"])
 
-reg("C08", gen=lambda rng, n, tier: [c for c in F.field_lattice(rng) + F.field_lattice(rng, "c") if b"--json" in c.argv] + F.c08(rng, n) + F.c08_big(rng), budget=(9000, 60000), absolute=True, oracle=oracle_c08,
+reg("C08", gen=lambda rng, n, tier: (lambda cs: cs + F.with_default_bounds(rng, cs, 0.15))([c for c in F.field_lattice(rng) + F.field_lattice(rng, "c") if b"--json" in c.argv] + F.c08(rng, n)) + F.c08_big(rng), budget=(9000, 60000), absolute=True, oracle=oracle_c08,
     rule="--json in -f and -c mode on valid UTF-8 with quotes, backslashes, U+0000-1F, U+007F, U+2028, astral "
          "characters; multi-byte delimiters, -g -p -t -s -m -z, fallbacks; every output line is also parsed by "
          "Python's strict json.loads",
@@ -507,7 +514,7 @@ reg("C19", gen=lambda rng, n, tier: F.c19(rng, n, full=(tier == "thorough")) + F
 
 # ------------------------------------------------------------------ C16 / C17
 
-reg("C16", gen=lambda rng, n, tier: F.regex_lattice(rng) + F.regex(rng, (3 * n) // 4) + F.regex_random(rng, n // 4), budget=(12000, 80000), absolute=True,
+reg("C16", gen=lambda rng, n, tier: (lambda cs: cs + F.with_default_bounds(rng, cs))(F.regex_lattice(rng) + F.regex(rng, (3 * n) // 4) + F.regex_random(rng, n // 4)), budget=(12000, 80000), absolute=True,
     compare=lambda c: True,
     rule="-e with regexes of the modelled family (single char, class, alternations of different lengths, '+' runs, "
          "groups, multi-byte literals) x bounds x {-g, -t l|r|b, -p -r R, -r R with $-sequences, -s, -m, -j, --json, "
